@@ -3,6 +3,7 @@ package e2e
 import (
 	"fmt"
 	"testing"
+	"time"
 
 	"pgregory.net/rapid"
 
@@ -48,3 +49,31 @@ func converges(t *testing.T, focus wl.GroupFocus) {
 }
 
 func TestClientsConvergeIdle(t *testing.T) { converges(t, wl.GroupFocus{CoopIdle: true}) }
+
+// TestOnlyFirstMemberLosesTwice is the one shape in which nothing else can repair a member that
+// revokes without rejoining: 5 idle partitions, three members joining well apart. The first
+// member goes 5 -> 3 -> 2 while the second keeps its 2: at the third join the first member is
+// the only one that has to give a partition up, so its rejoin is the only thing that can start
+// the rebalance that hands the partition to the newcomer. Also run with 3 partitions (2,1 ->
+// 1,1,1) and with four members.
+func TestOnlyFirstMemberLosesTwice(t *testing.T) {
+	for _, c := range []struct {
+		parts int32
+		n     int
+	}{{5, 3}, {3, 3}, {5, 4}, {9, 5}} {
+		plan := wl.GroupPlan{Brokers: 1, Protocol: "coop", Topics: []string{"g0"}, Parts: []int32{c.parts}, Late: []bool{false}, Slots: c.n, AutoCommit: time.Second, PollEvery: 100 * time.Millisecond, NoTraffic: true}
+		for s := 0; s < c.n; s++ {
+			plan.InitTopics = append(plan.InitTopics, []int{0})
+			plan.Steps = append(plan.Steps, wl.GroupStep{Kind: "join", Slot: s, Delay: 10 * time.Second})
+		}
+		var o *wl.GroupObs
+		bubble.Run(t, nil, func(e *bubble.Env) { o = wl.RunGroup(e, plan) })
+		ev.Case(fmt.Sprintf("e2e-fixed|%d|%d", c.parts, c.n), true)
+		if o.DualOwnership != "" {
+			t.Fatalf("%d partitions, %d members joining 10 s apart: %s", c.parts, c.n, o.DualOwnership)
+		}
+		if len(o.Unowned) > 0 {
+			t.Fatalf("%d idle partitions, %d cooperative-sticky members joining 10 s apart: 3 virtual minutes after the last join %v have no owner (final owners %v)\nhistory tail:\n%s", c.parts, c.n, o.Unowned, o.FinalOwner, o.Log.Dump(60))
+		}
+	}
+}
